@@ -702,8 +702,12 @@ real_all(void) {
 			active = 0;
 			if (0 == ((C02_REAL_MASK >> idx) & 1))
 				continue;
-			cs = ecdsa_curve_str_get_by_name(rf[2], strlen(rf[2]));
-			if (NULL == cs) { fprintf(stderr, "C02 harness: no built-in curve %s\n", rf[2]); exit(3); }
+			/* by position, not ecdsa_curve_str_get_by_name(): one record's name_size is not strlen(name) */
+			if ((size_t)idx >= nitems(ec_curve_str) || 0 != strcmp(ec_curve_str[idx].name, rf[2])) {
+				fprintf(stderr, "C02 harness: built-in curve %d is not %s\n", idx, rf[2]);
+				exit(3);
+			}
+			cs = &ec_curve_str[idx];
 			snprintf(real_desc, sizeof(real_desc), "curve=%s setup", rf[2]);
 			owns = vh_begin("ecdsa_curve_from_str");
 			PAINT();
